@@ -32,7 +32,7 @@ from vlib import Check, run_tlc, tlc_must_pass
 
 PROP = "C13"
 BATCH = 50
-QUOTA = {"search": 420, "special": 300, "invoc": 100, "pairs": 200, "cycles": 120, "data": 60, "laws": 48,
+QUOTA = {"search": 420, "special": 300, "invoc": 100, "virt": 260, "pairs": 200, "cycles": 120, "data": 60, "laws": 48,
          "codefile": 700}
 ACTIONS = ("BindCodeFile", "StartMain", "ForceStmt", "FinishLoad", "DemandStmt", "FinishManifest", "Import",
            "Demand", "FollowLazy", "DeliverForced", "DeliverManifest", "ManifestCycle")
@@ -122,7 +122,10 @@ def describe(c):
     jp = " ".join("-J " + "/".join(j) for j in c["jp"])
     for o in c.get("opts", []):
         jp += f" {iu.OPT_FLAG[o['route']]} {o['var']}={'/'.join(o['path'])}"
-    return f"{c['fam']}: rsjsonnet {jp} {'/'.join(c['main'])} | " + ", ".join(files)
+    main = "/".join(c["main"])
+    if c["fam"] == "virt":      # the text of the main file is the program (see imports_util.Tree.command)
+        main = ("- < " if (len(c["jp"]) + len(c["fs"])) % 2 == 0 else "-e <text of> ") + main
+    return f"{c['fam']}: rsjsonnet {jp} {main} | " + ", ".join(files)
 
 
 def run(tier, seed):
@@ -136,7 +139,10 @@ def run(tier, seed):
         "generated library files are ASCII: `std.trace(\"T<tag>\", {tag, thisFile, eager: [imports], lazy:: import})`; "
         "one TRACE line on stderr = one evaluation of the file",
         "the process runs as root: an unreadable file is represented by a directory / a dangling link",
-        "sources without a directory (-e, stdin) and a data file evaluated with `import` are outside the decided domain",
+        "family virt: the main program is given as text with -e or on standard input (the scenario decides which); it "
+        "has no directory (its relative imports are answered by -J alone), std.thisFile is <cmdline> / <stdin>, and "
+        "reaching the file that holds its text by an import is outside the decided domain",
+        "a data file evaluated with `import` is outside the decided domain",
         "for a failing run only `at most once, and only files the specification had started to load` is required of the TRACE lines",
         "code files: --ext-code-file options are bound before --tla-code-file options, each kind in command-line order "
         "(so, of two options naming one file, that one's spelling is std.thisFile); option names are distinct; with "
